@@ -6,7 +6,9 @@ ALL = ["C%02d" % i for i in range(1, 21)]
 CORE_NOTE = ("Trusted: the controlled scheduler (code between two verif hooks of one goroutine is atomic w.r.t. other scenario goroutines; events are logged "
              "by the goroutine performing them), the recording reporters, TLC. DFS is exhaustive over thread choices at the listed points only; "
              "other points and the larger scenarios are covered by seeded random schedules. The TallyCore model is exhaustive for its small universe "
-             "(one subscope identity, one counter per scope object, one root gauge).")
+             "(one subscope identity, one counter per scope object, one root gauge). For C01 C02 C07 C08 C09 the scenarios that stay inside that universe are also replayed "
+             "step by step (every granted hook of every goroutine, delivered values compared) through the PlusCal algorithm (TallyStepTrace.tla); a step the model "
+             "does not have is reported as drift, not as a verdict.")
 
 CHECKS = {
  "C01": dict(
